@@ -35,7 +35,7 @@ while True:
     try:
         a, b = block(r[k:], key)
         cand = r[k:][a:b]
-        compile(cand.replace("_c(", "dict(pid=", 1), "x", "eval")   # must be a python call expression
+        compile(cand, "x", "eval")   # must be a python call expression
         new = cand      # keep the LAST well-formed occurrence
     except (SystemExit, SyntaxError, ValueError):
         continue
